@@ -36,6 +36,14 @@ class AResult:
     pass
 
 
+class CaseTimeout(KeyboardInterrupt):
+    """raised by SIGALRM inside a case that no longer returns to the event loop (a synchronous livelock)"""
+
+
+def _alarm(signum, frame):
+    raise CaseTimeout()
+
+
 class Ctx:
     """consumer factories bound to one run"""
 
@@ -300,13 +308,29 @@ def run_async(case, max_steps=400):
             tasks = [env.loop.create_task(producer(p, pi)) for pi, p in enumerate(case['producers'])]
             ar.stop = None
             quiet = 0
+            budget = 150000             # loop iterations per case (a livelock must not eat the shard's time)
+            import signal
+            import threading
+            use_alarm = threading.current_thread() is threading.main_thread()
+            if use_alarm:
+                old_handler = signal.signal(signal.SIGALRM, _alarm)
+                signal.alarm(case.get('_watchdog_s', 20))
             for _ in range(max_steps):
                 n0 = len(log.ev)
-                reason = env.loop.drive(until_vt=env.loop.time() + step, max_iters=400000)
+                it0 = env.loop.iters
+                try:
+                    reason = env.loop.drive(until_vt=env.loop.time() + step, max_iters=max(1, budget))
+                except CaseTimeout:
+                    ar.stop = 'watchdog'
+                    break
+                except R.LogFull:
+                    ar.stop = 'iter-cap'
+                    break
+                budget -= env.loop.iters - it0
                 if reason == 'idle':
                     ar.stop = 'idle'
                     break
-                if reason == 'iter-cap':
+                if reason == 'iter-cap' or budget <= 0 or len(log.ev) > 60000:
                     ar.stop = 'iter-cap'
                     break
                 if any(substantive(e) for e in log.ev[n0:]):
@@ -318,6 +342,9 @@ def run_async(case, max_steps=400):
                         break
             else:
                 ar.stop = 'vt-cap'
+            if use_alarm:
+                signal.alarm(0)
+                signal.signal(signal.SIGALRM, old_handler)
             ar.producers_done = all(t.done() for t in tasks)
             for t in tasks:
                 if t.done() and not t.cancelled() and t.exception() is not None:
@@ -582,7 +609,7 @@ def expected_holders(case, ar):
 
 def check_c05(case, counters, sets):
     ar = run_async(case)
-    if ar.stop in ('iter-cap', 'vt-cap'):
+    if ar.stop in ('iter-cap', 'vt-cap', 'watchdog'):
         return None, []
     log = ar.log
     viols, seen = [], set()
